@@ -179,8 +179,8 @@ def check_range(ctx, t, log, nmax):
     i = ctx.sym("i", 32)
     ctx.assume(z3.UGE(n, 1), z3.ULE(n, nmax), z3.ULT(i, n))
     ab = t.abits // 8
-    # whole application-sized range must fit (rlbox sizes the range check with the application element size)
-    ctx.assume(z3.UGE(p, base), z3.ULE(p - base + zext(n, 64) * ab, BV(size, 64)))
+    # the range of n guest-sized elements fits, possibly ending at the last byte of the region: the copy must go through
+    ctx.assume(z3.UGE(p, base), z3.ULE(p - base + zext(n, 64) * gb, BV(size, 64)))
     paths = ctx.run(k, [base, p, n, i])
     mem0 = ctx.eng.initial_memory()
     for q in paths:
